@@ -171,6 +171,11 @@ CATALOGUE = [
     B("c14-nonstrict", "C14", TPYX,
       "            while (x[k] - x[i]) / (t[k] - t[i]) < test and k < j:",
       "            while (x[k] - x[i]) / (t[k] - t[i]) <= test and k < j:", "strictness"),
+    T("c14-degrees-by-triangles", "C14", VG,
+      "        retarded_degree = np.zeros(self.N)\n        A = self.adjacency\n\n        for i in range(self.N):\n            retarded_degree[i] = A[i, :i].sum()\n\n        return retarded_degree",
+      "        past = np.tril(self.adjacency, k=-1)\n        return past.sum(axis=1).astype(float)",
+      also=[(VG, "        advanced_degree = np.zeros(self.N)\n        A = self.adjacency\n\n        for i in range(self.N):\n            advanced_degree[i] = A[i, i:].sum()\n\n        return advanced_degree",
+             "        future = np.triu(self.adjacency, k=1)\n        return future.sum(axis=1).astype(float)")]),
     B("c14-advanced-slice", "C14", VG, "advanced_degree[i] = A[i, i:].sum()",
       "advanced_degree[i] = A[i, i+2:].sum()", "complementary-slices"),
     # ---------------- C05
@@ -240,6 +245,13 @@ CATALOGUE = [
       "        threshold = self.threshold_from_link_density(link_density)\n        self._threshold = threshold",
       "writes-threshold"),
     T("c09-fill-diagonal", "C09", CN, "        A.flat[::N+1] = 0\n", "        np.fill_diagonal(A, 0)\n"),
+    T("c13-anomaly-row-slice", "C13", "src/pyunicorn/climate/climate_data.py",
+      "            sample = observable[i::time_cycle, :]",
+      "            sample = observable[i::time_cycle]"),
+    B("c13-phase-mean-complete-years", "C13", "src/pyunicorn/climate/climate_data.py",
+      "            phase_mean[i, :] = observable[i::time_cycle, :].mean(axis=0)",
+      "            phase_mean[i, :] = observable[i:-time_cycle:time_cycle, :].mean(axis=0)",
+      "D5/ClimateData.phase_mean"),
     B("c13-open-interval", "C13", DATA,
       "            time_indices = (full_time >= window[\"time_min\"]) & \\\n                           (full_time <= window[\"time_max\"])",
       "            time_indices = (full_time >= window[\"time_min\"]) & \\\n                           (full_time < window[\"time_max\"])",
